@@ -67,8 +67,8 @@ class JointDistributionModel(DistributionModel):
     def entropy(self) -> torch.Tensor:
         entropies = []
         for distr in self._distributions.models():
-            entropies.append(distr.entropy())
-        return torch.cat(entropies, 0).sum()
+            entropies.append(distr.entropy().sum())
+        return torch.stack(entropies).sum()
 
     def handle_parameter_changed(self, variable: Parameter, index, event) -> None:
         pass
